@@ -9,6 +9,9 @@ Part 2 (below): extension and binary fields.
 -/
 import MpycV.Lemmas.PrimeFSqrt
 import MpycV.Lemmas.PrimeFSqrtTable
+import MpycV.Lemmas.ExtFSqrt
+import MpycV.Lemmas.ExtFSqrtTable
+import MpycV.Lemmas.BinFSqrt
 
 namespace MpycV.C21
 open MpycV.PrimeF
@@ -128,5 +131,196 @@ Frobenius, and termination of the search for a non-residue discriminant within `
 theorem sqrt_cipolla_partial : ∀ q ∈ primes1mod4, ∀ a < q, sqrtCheck q a = true := sqrtCheck_table
 
 example : sqrt 13 4 false = .ok 11 ∧ mul 13 11 11 = 4 ∧ sqrt 13 4 true = .ok 6 ∧ mul 13 6 11 = 1 := by decide +kernel
+
+end MpycV.C21
+
+/-! # Part 2: extension fields (model `MpycV.ExtF`) and binary fields (model `MpycV.BinF`)
+
+proved for every prime p and every admissible modulus: `is_sqr` (Euler's criterion in the finite field
+`AdjoinRoot m` of order p^d), `sqrt`/`sqrt(INV)` for q ≡ 3 (mod 4), binary fields (Frobenius), zero/INV raising.
+Tonelli–Shanks (q ≡ 1 mod 4): `_partial`, kernel-checked for every element of GF(9), GF(25), GF(49), GF(81),
+GF(121), GF(125). -/
+namespace MpycV.C21
+
+section ext
+open MpycV.ExtF MpycV.GFpX
+set_option linter.unusedSectionVars false
+
+variable {p : ℕ} [hpf : Fact p.Prime] {m : Poly}
+
+/-- ★ odd order: `is_sqr(a)` never raises and holds exactly for the squares (0 included) -/
+theorem ext_is_sqr_iff (hm : IsModulus p m) (hodd : ExtF.order p m % 2 = 1) {a : Poly} (ha : Red p m a) :
+    ∃ b, ExtF.isSqr p m a = .ok b ∧ (b = true ↔ ∃ r, Red p m r ∧ ExtF.mul p m r r = a) := by
+  obtain ⟨b, e, hb⟩ := isSqr_spec hm hodd ha
+  exact ⟨b, e, by rw [hb, ExtF.isSquare_iff_model hm ha]⟩
+
+/-- ★ `sqrt(0) = 0`, `sqrt(0, INV=True)` raises ZeroDivisionError (every extension field) -/
+theorem ext_sqrt_zero_inv_raises (hm : IsModulus p m) :
+    ExtF.sqrt p m [] false = .ok [] ∧ ExtF.sqrt p m [] true = .error .zeroDivision := by
+  refine ⟨?_, rfl⟩
+  have hnil : Red p m [] := ⟨⟨by simp [Reduced], by simp [Normalised]⟩, List.length_pos_iff.mpr hm.ne_nil⟩
+  show Except.ok (ExtF.mk p m []) = _
+  rw [mk_of_red hm hnil]
+
+/-- ★ q ≡ 3 (mod 4): for every square `a`, `sqrt(a)` is a class-invariant value whose square is `a` -/
+theorem ext_sqrt_q3 (hm : IsModulus p m) (h3 : ExtF.order p m % 4 = 3) {a : Poly} (ha : Red p m a)
+    (hs : ∃ b, Red p m b ∧ ExtF.mul p m b b = a) :
+    ∃ r, ExtF.sqrt p m a false = .ok r ∧ Red p m r ∧ ExtF.mul p m r r = a := by
+  by_cases ha0 : a = []
+  · subst ha0
+    refine ⟨[], (ext_sqrt_zero_inv_raises hm).1, ha, ?_⟩
+    apply phi_inj hm (red_mul hm ha.1 ha.1) ha
+    rw [phi_mul hm ha.1 ha.1]; simp [φ]
+  · obtain ⟨_, _, heul⟩ := finite_field_facts hm
+    have hx : φ p m a ≠ 0 := fun h => ha0 ((phi_eq_zero_iff hm ha).mp h)
+    have hsq : IsSquare (φ p m a) := (ExtF.isSquare_iff_model hm ha).mpr hs
+    have he := ((heul (by omega) _ hx).1).mp hsq
+    obtain ⟨r, e, rr, hr⟩ := sqrt_q3_val hm h3 ha ha0 false
+    refine ⟨r, e, rr, ?_⟩
+    apply phi_inj hm (red_mul hm rr.1 rr.1) ha
+    rw [phi_mul hm rr.1 rr.1, hr]
+    simp only [Bool.false_eq_true, ↓reduceIte]
+    have h1 : (ExtF.order p m + 1) >>> 2 + (ExtF.order p m + 1) >>> 2 = ExtF.order p m / 2 + 1 := by
+      rw [Nat.shiftRight_eq_div_pow]; omega
+    rw [← pow_add, h1, pow_succ, he, one_mul]
+
+/-- ★ q ≡ 3 (mod 4): for nonzero `a`, `sqrt(a, INV=True)` is the inverse of `sqrt(a)`; for nonzero squares its
+square is `1/a` -/
+theorem ext_sqrt_q3_inv (hm : IsModulus p m) (h3 : ExtF.order p m % 4 = 3) {a : Poly} (ha : Red p m a)
+    (ha0 : a ≠ []) :
+    ∃ r r', ExtF.sqrt p m a false = .ok r ∧ ExtF.sqrt p m a true = .ok r' ∧ Red p m r' ∧
+      ExtF.mul p m r' r = [1] ∧
+      ((∃ b, Red p m b ∧ ExtF.mul p m b b = a) → ExtF.mul p m (ExtF.mul p m r' r') a = [1]) := by
+  obtain ⟨hfer, _, heul⟩ := finite_field_facts hm
+  have hx : φ p m a ≠ 0 := fun h => ha0 ((phi_eq_zero_iff hm ha).mp h)
+  obtain ⟨r, e, rr, hr⟩ := sqrt_q3_val hm h3 ha ha0 false
+  obtain ⟨r', e', rr', hr'⟩ := sqrt_q3_val hm h3 ha ha0 true
+  simp only [Bool.false_eq_true, ↓reduceIte] at hr hr'
+  have hsum : (ExtF.order p m * 3 - 5) >>> 2 + (ExtF.order p m + 1) >>> 2 = ExtF.order p m - 1 := by
+    rw [Nat.shiftRight_eq_div_pow, Nat.shiftRight_eq_div_pow]; omega
+  have hprod : φ p m r' * φ p m r = 1 := by rw [hr, hr', ← pow_add, hsum]; exact hfer _ hx
+  refine ⟨r, r', e, e', rr', ?_, ?_⟩
+  · apply phi_inj hm (red_mul hm rr'.1 rr.1) (one_red hm)
+    rw [phi_mul hm rr'.1 rr.1, phi_one]; exact hprod
+  · intro hs
+    obtain ⟨r0, e0, _, h0⟩ := ext_sqrt_q3 hm h3 ha hs
+    rw [e] at e0; cases e0
+    have hrr := red_mul hm rr'.1 rr'.1
+    apply phi_inj hm (red_mul hm hrr.1 ha.1) (one_red hm)
+    rw [phi_mul hm hrr.1 ha.1, phi_mul hm rr'.1 rr'.1, phi_one]
+    have hsq : φ p m a = φ p m r * φ p m r := by rw [← phi_mul hm rr.1 rr.1, h0]
+    rw [hsq]
+    calc φ p m r' * φ p m r' * (φ p m r * φ p m r) = (φ p m r' * φ p m r) ^ 2 := by ring
+      _ = 1 := by rw [hprod]; simp
+
+/-- ☆ PARTIAL (finite tables, kernel-checked): Tonelli–Shanks branch (q ≡ 1 mod 4): for EVERY element of GF(9),
+GF(25), GF(49), GF(81), GF(121), GF(125) (moduli as chosen by `find_irreducible`; `ExtF.checkField` also re-checks
+their irreducibility): squares get a class-invariant root whose square is the element, `sqrt(INV=True)` is its
+inverse, `sqrt(0, INV=True)` raises.  Full statement not proved: the same for every `IsModulus p m` with
+`order % 4 = 1`; missing: the 2-Sylow loop invariant (`b = x²/a` has order `2^k`, `k < v`), existence of a
+non-residue below the fuel, and termination of both loops. -/
+theorem ext_sqrt_ts_partial :
+    ExtF.checkField 3 [1, 0, 1] = true ∧ ExtF.checkField 5 [2, 0, 1] = true ∧ ExtF.checkField 7 [1, 0, 1] = true ∧
+    ExtF.checkField 3 [2, 1, 0, 0, 1] = true ∧ ExtF.checkField 11 [1, 0, 1] = true ∧
+    ExtF.checkField 5 [1, 1, 0, 1] = true :=
+  ⟨ExtF.ts_9, ExtF.ts_25, ExtF.ts_49, ExtF.ts_81, ExtF.ts_121, ExtF.ts_125⟩
+
+example : ExtF.sqrt 3 [1, 0, 1] [2] false = .ok [0, 1] ∧ ExtF.mul 3 [1, 0, 1] [0, 1] [0, 1] = [2] ∧
+    ExtF.isSqr 3 [1, 0, 1] [1, 1] = .ok false ∧ ExtF.order 3 [1, 2, 0, 1] % 4 = 3 := by decide +kernel
+
+end ext
+
+section bin
+open MpycV.BinF MpycV.BinPoly
+
+local instance : Fact (Nat.Prime 2) := Nat.fact_prime_two
+
+variable {m : ℕ}
+
+/-- ★ binary fields: every element is a square (`is_sqr` is constantly true), `sqrt(a) = a^(q/2)` is a
+class-invariant value whose square is `a` (Frobenius) -/
+theorem bin_sqrt (hm : isIrreducible m = true) {a : ℕ} (ha : BRed m a) :
+    BinF.isSqr a = true ∧ ∃ r, BinF.sqrt m a false = .ok r ∧ BRed m r ∧ BinF.mul m r r = a := by
+  refine ⟨rfl, ?_⟩
+  have M := BinF.isModulus_of_check hm
+  have h0 := BinF.ne_zero_of_check hm
+  have h2 := bitLen_ge_two_of_check hm
+  have rA := (red_iff m a).mpr ha
+  have hts := toList_sqrt h0 h2 a false
+  by_cases ha0 : a = 0
+  · subst ha0
+    have hnil : ExtF.Red 2 (toList m) [] := by rw [← BinF.toList_zero]; exact rA
+    rw [BinF.toList_zero, (ext_sqrt_zero_inv_raises M).1] at hts
+    obtain ⟨r, er, hr⟩ := exists_of_map_toList hts
+    have hr0 : r = 0 := toList_eq_nil_iff.mp hr
+    subst hr0
+    refine ⟨0, er, ha, ?_⟩
+    apply toList_injective
+    rw [toList_mul' h0, BinF.toList_zero]
+    apply ExtF.phi_inj M (ExtF.red_mul M hnil.1 hnil.1) hnil
+    rw [ExtF.phi_mul M hnil.1 hnil.1]; simp [ExtF.φ]
+  · have hA0 : toList a ≠ [] := fun h => ha0 (toList_eq_nil_iff.mp h)
+    obtain ⟨_, hfrob, _⟩ := ExtF.finite_field_facts M
+    have heven : ExtF.order 2 (toList m) % 2 = 0 := by rw [order_eq]; exact order_even h2
+    obtain ⟨r', e, rr, hr⟩ := ExtF.sqrt_even_val M heven rA hA0 false
+    rw [e] at hts
+    obtain ⟨r, er, hrr⟩ := exists_of_map_toList hts
+    refine ⟨r, er, (red_iff m r).mp (by rw [hrr]; exact rr), ?_⟩
+    apply toList_injective
+    rw [toList_mul' h0, hrr]
+    apply ExtF.phi_inj M (ExtF.red_mul M rr.1 rr.1) rA
+    rw [ExtF.phi_mul M rr.1 rr.1, hr]
+    simp only [Bool.false_eq_true, ↓reduceIte]
+    have h1 : ExtF.order 2 (toList m) >>> 1 + ExtF.order 2 (toList m) >>> 1 = ExtF.order 2 (toList m) := by
+      rw [Nat.shiftRight_eq_div_pow]; omega
+    rw [← pow_add, h1, hfrob]
+
+/-- ★ binary fields: `sqrt(0, INV=True)` raises; for `a ≠ 0`, `sqrt(a, INV=True)` is the inverse of `sqrt(a)` and its
+square is `1/a` -/
+theorem bin_sqrt_inv (hm : isIrreducible m = true) {a : ℕ} (ha : BRed m a) :
+    BinF.sqrt m 0 true = .error .zeroDivision ∧
+    (a ≠ 0 → ∃ r r', BinF.sqrt m a false = .ok r ∧ BinF.sqrt m a true = .ok r' ∧ BRed m r' ∧
+      BinF.mul m r' r = 1 ∧ BinF.mul m (BinF.mul m r' r') a = 1) := by
+  refine ⟨rfl, fun ha0 => ?_⟩
+  have M := BinF.isModulus_of_check hm
+  have h0 := BinF.ne_zero_of_check hm
+  have h2 := bitLen_ge_two_of_check hm
+  have rA := (red_iff m a).mpr ha
+  have hA0 : toList a ≠ [] := fun h => ha0 (toList_eq_nil_iff.mp h)
+  obtain ⟨hfer, hfrob, _⟩ := ExtF.finite_field_facts M
+  have hx : ExtF.φ 2 (toList m) (toList a) ≠ 0 := fun h => hA0 ((ExtF.phi_eq_zero_iff M rA).mp h)
+  have heven : ExtF.order 2 (toList m) % 2 = 0 := by rw [order_eq]; exact order_even h2
+  have hq2 : 2 ≤ ExtF.order 2 (toList m) := ExtF.order_ge M
+  obtain ⟨s, e, rs, hs⟩ := ExtF.sqrt_even_val M heven rA hA0 false
+  obtain ⟨s', e', rs', hs'⟩ := ExtF.sqrt_even_val M heven rA hA0 true
+  simp only [Bool.false_eq_true, ↓reduceIte] at hs hs'
+  obtain ⟨r, er, hr⟩ := exists_of_map_toList (x := BinF.sqrt m a false) (by rw [toList_sqrt h0 h2]; exact e)
+  obtain ⟨r', er', hr'⟩ := exists_of_map_toList (x := BinF.sqrt m a true) (by rw [toList_sqrt h0 h2]; exact e')
+  have hsum : ExtF.order 2 (toList m) >>> 1 - 1 + ExtF.order 2 (toList m) >>> 1 = ExtF.order 2 (toList m) - 1 := by
+    rw [Nat.shiftRight_eq_div_pow]; omega
+  have hprod : ExtF.φ 2 (toList m) s' * ExtF.φ 2 (toList m) s = 1 := by
+    rw [hs, hs', ← pow_add, hsum]; exact hfer _ hx
+  have hsq : ExtF.φ 2 (toList m) s * ExtF.φ 2 (toList m) s = ExtF.φ 2 (toList m) (toList a) := by
+    have h1 : ExtF.order 2 (toList m) >>> 1 + ExtF.order 2 (toList m) >>> 1 = ExtF.order 2 (toList m) := by
+      rw [Nat.shiftRight_eq_div_pow]; omega
+    rw [hs, ← pow_add, h1, hfrob]
+  refine ⟨r, r', er, er', (red_iff m r').mp (by rw [hr']; exact rs'), ?_, ?_⟩
+  · apply toList_injective
+    rw [toList_mul' h0, hr, hr', toList_one]
+    apply ExtF.phi_inj M (ExtF.red_mul M rs'.1 rs.1) (ExtF.one_red M)
+    rw [ExtF.phi_mul M rs'.1 rs.1, ExtF.phi_one]; exact hprod
+  · apply toList_injective
+    rw [toList_mul' h0, toList_mul' h0, hr', toList_one]
+    have hrr := ExtF.red_mul M rs'.1 rs'.1
+    apply ExtF.phi_inj M (ExtF.red_mul M hrr.1 rA.1) (ExtF.one_red M)
+    rw [ExtF.phi_mul M hrr.1 rA.1, ExtF.phi_mul M rs'.1 rs'.1, ExtF.phi_one, ← hsq]
+    calc ExtF.φ 2 (toList m) s' * ExtF.φ 2 (toList m) s' * (ExtF.φ 2 (toList m) s * ExtF.φ 2 (toList m) s)
+        = (ExtF.φ 2 (toList m) s' * ExtF.φ 2 (toList m) s) ^ 2 := by ring
+      _ = 1 := by rw [hprod]; simp
+
+example : isIrreducible 283 = true ∧ BinF.sqrt 283 87 false = .ok 245 ∧ BinF.mul 283 245 245 = 87 ∧
+    BinF.sqrt 283 87 true = .ok 70 ∧ BinF.mul 283 70 245 = 1 := by decide +kernel
+
+end bin
 
 end MpycV.C21
